@@ -22,7 +22,9 @@ class Node:
     substitutions.
     """
     __slots__ = 'id', 'data', 'hash'
-    __ID_COUNTER = multiprocessing.Value('i', 0)
+    # 64 bits: a 32-bit counter wraps after 2^32 nodes (every candidate of a
+    # large input allocates thousands) and then repeats ids of live nodes
+    __ID_COUNTER = multiprocessing.Value('q', 0)
 
     @classmethod
     def __get_id(self):
@@ -173,11 +175,11 @@ class Node:
             if expr.is_leaf():
                 res.append(b'L')
                 data = expr.data.encode()
-                res.append(struct.pack("=ii", expr.id, len(data)))
+                res.append(struct.pack("=qi", expr.id, len(data)))
                 res.append(data)
             else:
                 res.append(b'(')
-                res.append(struct.pack("=iq", expr.id, expr.hash))
+                res.append(struct.pack("=qq", expr.id, expr.hash))
                 visit.append(b')')
                 visit.extend(reversed(expr.data))
 
@@ -191,8 +193,8 @@ class Node:
         while i < smax:
             cur = state[i]
             if cur == 40:  # b'('
-                exprs.append(list(struct.unpack('=iq', state[i + 1:i + 13])))
-                i += 13
+                exprs.append(list(struct.unpack('=qq', state[i + 1:i + 17])))
+                i += 17
                 continue
             if cur == 41:  # b')'
                 i += 1
@@ -203,10 +205,10 @@ class Node:
                 exprs[-1].append(node)
                 continue
             if cur == 76:  # b'L'
-                _id, leaflen = struct.unpack('=ii', state[i + 1:i + 9])
-                node = Node(state[i + 9:i + leaflen + 9].decode(), _id=_id)
+                _id, leaflen = struct.unpack('=qi', state[i + 1:i + 13])
+                node = Node(state[i + 13:i + leaflen + 13].decode(), _id=_id)
                 exprs[-1].append(node)
-                i += leaflen + 9
+                i += leaflen + 13
                 continue
             break
         self.id = exprs[0][0].id
